@@ -45,7 +45,7 @@ def _mods():
 
 GENERATED = ("event", "start", "stop", "input_required", "human_response")
 STOP_LIKE = ("stop", "wf_failed", "timed_out", "cancelled", "idle_released")
-EVENT_PATHS = ("json", "json_container", "env_meta_qn", "env_meta_reg", "env_client", "env_client_str")
+EVENT_PATHS = ("json", "json_container", "env_meta_qn", "env_meta_reg", "env_meta_reg_base", "env_client", "env_client_str")
 TICK_EVENT_PATHS = ("tick_add", "tick_add_retry", "tick_publish", "tick_step_result", "tick_step_trigger",
                     "tick_step_failed", "tick_step_collect", "tick_step_waiter")
 TICK_BARE_PATHS = ("tick_cancel", "tick_idle_release", "tick_timeout", "tick_waiter_timeout", "tick_idle_check")
@@ -230,6 +230,12 @@ def _event_trip(path, ev):
         txt = _guard("serialize", S.serialize, box)
         out = _guard("deserialize", S.deserialize, txt)
         return out, txt, box, out
+    if path == "env_meta_reg_base":
+        env = _guard("serialize", ENV.EventEnvelopeWithMetadata.from_event, ev)
+        txt = _guard("serialize", env.model_dump_json)
+        back = _guard("deserialize", ENV.EventEnvelopeWithMetadata.model_validate_json, txt)
+        bases = [c for c in _registry(ev)[:-1] if c is not type(ev)]          # the ancestors and the other classes, not the class
+        return _guard("deserialize", back.load_event, bases), txt, None, None
     if path in ("env_meta_qn", "env_meta_reg"):
         env = _guard("serialize", ENV.EventEnvelopeWithMetadata.from_event, ev)
         txt = _guard("serialize", env.model_dump_json)
